@@ -134,7 +134,9 @@ TEMPLATES = {
                 '</dtml-in>',
     'unless': '<dtml-unless c>u<dtml-var x></dtml-unless><dtml-comment>'
               '<dtml-var x></dtml-comment>&dtml.url_quote-y;',
-    'let': '<dtml-let z=x w="y"><dtml-var z><dtml-var w></dtml-let>',
+    # literal values next to per-render values
+    'let': '<dtml-let n="3" c="\'lit\'" z=x w="y + c"><dtml-var z>'
+           '<dtml-var w><dtml-var n></dtml-let>',
     'try': '<dtml-try><dtml-var x><dtml-var boom><dtml-except Boom>E'
            '<dtml-var error_value><dtml-else>no</dtml-try>',
     'raise': '<dtml-try><dtml-raise type="KeyError">r<dtml-var x>'
